@@ -473,6 +473,22 @@ Definition parse_command (fx : bool) (raw : bytes) : presult :=
     | _ => PErr
     end.
 
+(** When the input has non-ASCII text outside string literals ([PDomain]) the Rust tokenizer either
+    rejects it (the character is not alphanumeric) or lets it through; for the heads that hand the
+    raw text to a peg grammar the result is then the grammar's.  [peg_fallback] is that result:
+    the implementation must answer either an error or this. *)
+Definition peg_fallback (fx : bool) (raw : bytes) : option presult :=
+  let input := utrim raw in
+  match tokenize input with
+  | TWord w :: _ =>
+      if ci_eqb w K_STORE then Some (parse_store input)
+      else if ci_eqb w K_REMEMBER then Some (parse_remember fx input)
+      else if ci_eqb w K_QUERY || ci_eqb w K_FIND then Some (of_res CQuery (parse_query fx input))
+      else if ci_eqb w K_REPLAY then Some (parse_replay input)
+      else None
+  | _ => None
+  end.
+
 (** * Dispatch (src/command/dispatcher.rs): which [Command] variants have an arm before the
     catch-all [unreachable!()]; the table is regenerated from the Rust text (tools/params/p30_dispatch.py). *)
 
